@@ -28,7 +28,7 @@ fn visit(env: &Env, s: &str, st: &mut Stats) {
 }
 
 pub fn run(env: &Env, run: &Run) -> (Stats, Coverage) {
-    let sigma = sigma11();
+    let sigma = crate::sig::rotated(env, sigma11(), run.seed);
     let n = run.tier.pick(5, 7);
     let mut st = strtree(&sigma, n, |_c, s, st| visit(env, s, st));
     st.merge(cpsweep(|c, st| {
